@@ -119,4 +119,11 @@ CHECKS = {
              'the definition of dH on the model. Random histories on real objects built from synthetic chemicals with exact enthalpies (load a set, feed a single- or multi-phase stream, query dH of the reaction or of a set member, react, '
              'adiabatic_reaction with heat input) log material, temperature and Hnet before / after; TLC judges material, dH value, Hnet value, isothermal heat of reaction (where the definition applies), adiabatic balance and temperature.',
         note='Trusted: TLC; synthetic chemicals only (constant Cn, constant latent heats); ReactionSystem not driven; infeasible conversions out of contract (C05).'),
+    'C03': dict(
+        engine='PhaseEq', category='model_checking',
+        technique='TLA+ contract spec of equilibrium calls as nondeterministic material-moving actions (PhaseEq.tla) model-checked by TLC; phase x chemical tables logged from real vle / lle / sle / vlle calls are validated step by step by TLC against the contract',
+        text='The specification allows an equilibrium call any outcome that conserves every chemical over the phases, keeps all entries non-negative, touches only the phases (and for sle the solute) the calculation works on and places '
+             'gas-only / condensed-only chemicals accordingly; TLC checks ledger, non-negativity and persistence of the locked placement over all call sequences on small tables. Histories of 8 calls on random real streams '
+             '(7 chemicals incl. gas-, liquid- and solid-only ones, flows over six decades, every initial distribution over g/l/L/s, all supported specification pairs) are logged in quanta of 1e-8 and judged by TLC.',
+        note='Trusted: TLC; the solvers are not modelled (contract only); calls that raise are not judged; H/S targets come from the library\'s own bounding flashes.'),
 }
